@@ -425,6 +425,8 @@ def run(ctx):
     for nm in ("RK45", "RK4", "DOPRI45", "RK87"):
         for span, te in (((2000.0, 2001.0), [2000.25 + 0.0025 * k for k in range(9)] + [2001.0]), ((-2001.0, -2000.0), [-2000.75 + 0.0025 * k for k in range(9)] + [-2000.0]),
                          ((0.0, 1.0), [0.5, 0.5 + 4e-9, 0.5 + 8e-9, 0.5 + 1.2e-8, 1.0]), ((-1.0, 0.0), [-0.5, -0.5 + 4e-9, -0.5 + 8e-9, 0.0])):
+            if nm == "RK4" and abs(span[0]) < 100:
+                continue            # (a fixed-step method keeps the step it was cut to for a nearby target: 4e-9 from there to the end of the span is 1e8 steps)
             for dense in (False, True):
                 cases.append(dict(section="facade", method=nm, span=list(span), shape=[2], t_eval=te, dense=dense, tol=1e-8, max_step=None, first_step=0.125 if nm == "RK4" else None, by_hand=True))
     # S3: args of length 0..3
